@@ -341,6 +341,9 @@ def geo2grid(lat, lon, zone=0, ellipsoid=grs80, prj=utm):
             zone = int(f'{amgzone}{subzone}')
         else:
             zone = int((float(lon) - (prj.initialcm - (1.5 * prj.zonewidth))) / prj.zonewidth)
+            if zone > 360 / prj.zonewidth:
+                # Longitude +180 is the western edge of the first zone
+                zone = zone - int(360 / prj.zonewidth)
     if prj == isg:
         amgzone = int(str(zone)[:2])
         subzone = int(str(zone)[2])
